@@ -68,12 +68,18 @@ pub enum ModelEvaluatorError {
   WriteLockFailed(String),
   #[error("decision table rule has {0} input and {1} output entries, expected {2} and {3}")]
   InvalidNumberOfRuleEntries(usize, usize, usize, usize),
+  #[error("cyclic requirements or type references, `{0}` depends on itself")]
+  CyclicDependency(String),
 }
 
 impl From<ModelEvaluatorError> for DmntkError {
   fn from(e: ModelEvaluatorError) -> Self {
     DmntkError::new("ModelEvaluatorError", &e.to_string())
   }
+}
+
+pub fn err_cyclic_dependency(name: &str) -> DmntkError {
+  ModelEvaluatorError::CyclicDependency(name.to_string()).into()
 }
 
 pub fn err_invalid_number_of_rule_entries(inputs: usize, outputs: usize, expected_inputs: usize, expected_outputs: usize) -> DmntkError {
